@@ -190,14 +190,15 @@ def _run(fb, rep, tier):
         for name, val in enum['items']:
             handled = val in cases
             rep.check(handled, 'R08.3', '_evaluateSolutionReal|handles|' + name, ev.where(), 'case %s' % name, 'simplifier result %s has no case: it falls through to the solver-status switch with a stale status' % name)
-        want = {'INFEASIBLE': 'INFEASIBLE', 'UNBOUNDED': 'UNBOUNDED', 'DUAL_INFEASIBLE': 'INForUNBD'}
+        # an UNBOUNDED of the simplifier (improving direction, feasibility unknown) may only become INForUNBD without a solve (F60)
+        want = {'INFEASIBLE': 'INFEASIBLE', 'UNBOUNDED': 'INForUNBD', 'DUAL_INFEASIBLE': 'INForUNBD'}
         arm = case_arm_nodes(ev, cases[dict(enum['items'])['INFEASIBLE']]) if dict(enum['items'])['INFEASIBLE'] in cases else []
         for res, st in sorted(want.items()):
             asg = [x for x in arm if x.k == 'BinaryOperator' and x.o == '=' and render(x.kids[0]) == '_status' and render(x.kids[1]) == st]
             good = False
             for x in asg:
                 conds = [render(a.kid('cond')) for a in ev.ancestors(x) if a.k == 'IfStmt']
-                if res == 'DUAL_INFEASIBLE':
+                if res in ('DUAL_INFEASIBLE', 'UNBOUNDED'):
                     good = good or all(('== INFEASIBLE' in c or '== UNBOUNDED' in c or 'ENSURERAY' in c) for c in conds)
                 else:
                     good = good or any(c == '(simplificationStatus == %s)' % res for c in conds)
